@@ -5,7 +5,7 @@ import Driver.Codec
 /-!
 Line protocol for the Python dispatch model.
 
-  param  := name,intent(0 in|1 inout|2 out),hasDefault,implied,hidden,unit-text(code points '.'-joined, '-' empty),exact('-' or the value tag an `O!` unit demands)
+  param  := name,intent(0 in|1 inout|2 out),hasDefault,implied,hidden,unit-text(code points '.'-joined, '-' empty),exact('-', or the '.'-joined value tags the unit and its post-parse converter accept: the exact type of an `O!` unit, the sequence classes of a list argument)
             the value classes a unit accepts come from the regenerated table Gen.PyStmts.unitClasses
   params := param ';' ... | '~'
   val    := tag.id          vals := val ',' ... | '~'
@@ -34,7 +34,7 @@ def decParam (s : String) : Param :=
       hasDefault := d == "1", implied := im == "1", hidden := h == "1",
       unit := { text := decNats u,
                 accepts := if a == "-" then (Shroud.PyTables.lookupUnit Shroud.Gen.PyStmts.unitClasses (decNats u)).getD []
-                           else [a.toNat!] } }
+                           else decNats a } }
   | _ => { name := 0, intent := .in_, hasDefault := false, implied := false, hidden := false,
            unit := { text := [], accepts := [] } }
 
